@@ -447,6 +447,36 @@ class R:
                 g.emit("wf64 %s" % x)
                 g.count("r64:inplace-tail-shared:" + op)
 
+    def full_buckets_episode(self):
+        """deterministic: ONE AddRange (then one Flip, one in-place Or with such a bitmap) covering two, three and four COMPLETE 2^32
+        buckets, some of which exist already; then an edit inside the FIRST complete bucket, inside a middle one and inside the last
+        one — each must leave the other buckets as they were (cardinality, membership of the same low bits in the neighbours)"""
+        g = self.g
+        for b0, ncomplete, pre in ((1, 2, ()), (0x7FFFFFFE, 3, (1,)), (5, 4, (0, 3)), (0, 2, ())):
+            for how in ("addr64", "flip64"):
+                x = g.fresh("fb")
+                g.emit("new64 %s" % x)
+                for j in pre:
+                    g.emit("addmany64 %s %d %d" % (x, ((b0 + 1 + j) << 32) + 7, ((b0 + 1 + j) << 32) + 70000))
+                if how == "flip64":
+                    g.emit("remr64 %s %d %d" % (x, b0 << 32, (b0 + ncomplete + 2) << 32))
+                start = (b0 << 32) + 5 if b0 else 0
+                end = ((b0 + 1 + ncomplete) << 32) + 9
+                g.emit("%s %s %d %d" % (how, x, start, end))
+                g.emit("card64 %s" % x); g.emit("wf64 %s" % x)
+                first = b0 + 1 if b0 else 0
+                for k in (first, first + ncomplete - 1, first + 1):
+                    g.emit("crem64 %s %d" % (x, (k << 32) + 100 + k % 7))
+                    g.emit("card64 %s" % x)
+                    for o in range(ncomplete):
+                        g.emit("has64 %s %d" % (x, ((first + o) << 32) + 100 + k % 7))
+                    g.emit("remr64 %s %d %d" % (x, (k << 32) + 70000, (k << 32) + 70010))
+                    g.emit("card64 %s" % x)
+                    g.emit("flip64 %s %d %d" % (x, (k << 32) + 131072, (k << 32) + 131080))
+                    g.emit("card64 %s" % x)
+                g.emit("wf64 %s" % x); g.emit("dig64 %s" % x)
+            g.count("r64:fixed-several-complete-buckets")
+
     def many_runs_episode(self):
         """batch iteration (every buffer length of a spread, incl. 0) over buckets whose chunks are RUN containers with several runs, an
         interval across 2^32, array and bitmap chunks: the batch boundary falls inside runs that are not the last of their chunk"""
@@ -472,6 +502,7 @@ class R:
         self.many_runs_episode()
         self.sflip_shared_episode()
         self.inplace_tail_shared_episode()
+        self.full_buckets_episode()
         self.boundary_episode(1)
         self.boundary_episode(0x80000000)
         self.boundary_episode()
